@@ -230,6 +230,34 @@ def run(ctx):
         g = T.lst(lambda row: T.lst(lambda x: "(Some %d)" % x, row), grid)
         terms.append("(%d, %s, %s, %s)" % (C, icells, ocells, g.replace("(Some", "(Some") ))
         metas.append({"R": R, "C": C, "rects": rects, "spelling": spelling, "nhead": nhead})
+    # two tables in a row (directly, or with an empty paragraph between them, which is dropped): each keeps its own grid
+    for j in range(200 if ctx.thorough else 40):
+        tabs = []
+        for _ in range(2):
+            R, C = ctx.rng.randint(1, 3), ctx.rng.randint(1, 3)
+            rects = G.random_tiling(ctx.rng, R, C)
+            rows, grid = G.encode(rects, R, C)
+            ok_heads = [h for h in range(0, R + 1) if not any(r < h < r + hh for (r, c, hh, w) in rects)]
+            nhead = ctx.rng.choice(ok_heads)
+            tabs.append((R, C, rects, rows, grid, nhead, read_table(tbl_xml(rows, {"explicit_continue": True}, nhead))))
+        between = [D.paragraph(children=[])] if j % 2 else []
+        res = conversion.convert_document_element_to_html(D.document([tabs[0][6]] + between + [tabs[1][6]]))
+        ctx.count()
+        dist["table_pairs"] = dist.get("table_pairs", 0) + 1
+        bad = None
+        try:
+            found = [n for n in O.strict_parse(res.value) if n.get("name") == "table"]
+            if len(found) != 2:
+                bad = "two tables of the document came out as %d table element(s)" % len(found)
+            else:
+                for (R, C, rects, rows, grid, nhead, _), node in zip(tabs, found):
+                    b2, _ = check_table(node, rows, grid, nhead, R)
+                    bad = bad or b2
+        except (ValueError, KeyError) as e:
+            bad = "output table is malformed: %s" % e
+        if bad:
+            ctx.violation("oracle", "adjacent tables: " + bad, {"api": "convert_document_element_to_html", "pair": [{"R": t[0], "C": t[1], "rects": t[2], "nhead": t[5]} for t in tabs],
+                                                               "empty_paragraph_between": bool(between), "observed_html": res.value[:900]}, True)
     for i in ctx.coq_eval("c09", HEADER, terms, CASE_TYPE, "chk")[:5]:
         ctx.violation("correspondence", "model row_spans and body_xml.calculate_row_spans disagree (or the layout of the observed spans is not the document grid)",
                       dict(metas[i], obligation="correspondence Model/Tables.v:row_spans vs body_xml calculate_row_spans"), False)
@@ -243,6 +271,17 @@ def run(ctx):
 
 def replay(ctx, rep):
     r = rep["replay"]
+    if "pair" in r:
+        tabs = []
+        for t in r["pair"]:
+            rows, grid = G.encode([tuple(x) for x in t["rects"]], t["R"], t["C"])
+            tabs.append((t["R"], rows, grid, t["nhead"], read_table(tbl_xml(rows, {"explicit_continue": True}, t["nhead"]))))
+        between = [D.paragraph(children=[])] if r["empty_paragraph_between"] else []
+        res = conversion.convert_document_element_to_html(D.document([tabs[0][4]] + between + [tabs[1][4]]))
+        found = [n for n in O.strict_parse(res.value) if n.get("name") == "table"]
+        bad = len(found) != 2 or any(check_table(node, t[1], t[2], t[3], t[0])[0] for t, node in zip(tabs, found))
+        print("replay:", "violated" if bad else "property holds on this input")
+        return 1 if bad else 0
     rows, grid = G.encode([tuple(x) for x in r["rects"]], r["R"], r["C"])
     nested = None
     if r.get("nested"):
